@@ -1,5 +1,5 @@
 (* C03/Witness.v — concrete programs on which the FAITHFUL model (all switches off) accepts an
-   ill-typed program: one per known class.  Each is also replayed on the real checker by
+   ill-typed program: one per known class; plus the two regression witnesses of the repaired classes.  Each is also replayed on the real checker by
    checks/c03.py (known_findings.json witnesses are the same programs rendered as Incan). *)
 From Coq Require Import ZArith List Bool Lia.
 From Verif Require Import C03.Model C03.ProofsBase.
@@ -112,11 +112,12 @@ Ltac wf := apply wf_single_nofields; repeat constructor.
 Definition refutes (w : project) : Prop :=
   WfDecls w /\ Determined w /\ check real w = [] /\ ~ ok w.
 
-Lemma w_elif_refutes : refutes w_elif /\ Known_by with_elif w_elif.
-Proof. split; [split; [wf|split; [reflexivity|split; [reflexivity|intros H; crush]]]|split; [reflexivity|vm_compute; discriminate]]. Qed.
+(* repaired: the current walker rejects it, the walker before the repair accepted it *)
+Lemma w_elif_regression : WfDecls w_elif /\ ~ ok w_elif /\ check unrepaired w_elif = [] /\ In (KUnknown, 3) (check real w_elif).
+Proof. split; [wf|split; [intros H; crush|split; [reflexivity|vm_compute; auto]]]. Qed.
 
-Lemma w_guard_refutes : refutes w_guard /\ Known_by with_guard w_guard.
-Proof. split; [split; [wf|split; [reflexivity|split; [reflexivity|intros H; crush]]]|split; [reflexivity|vm_compute; discriminate]]. Qed.
+Lemma w_guard_regression : WfDecls w_guard /\ ~ ok w_guard /\ check unrepaired w_guard = [] /\ In (KUnknown, 5) (check real w_guard).
+Proof. split; [wf|split; [intros H; crush|split; [reflexivity|vm_compute; auto]]]. Qed.
 
 Lemma w_outer_refutes : refutes w_outer /\ Known_by with_outer w_outer.
 Proof. split; [split; [wf|split; [reflexivity|split; [reflexivity|intros H; crush]]]|split; [reflexivity|vm_compute; discriminate]]. Qed.
